@@ -37,3 +37,5 @@ open Lungo.C01
 #print axioms Lungo.C01.refines_updateOne
 #print axioms Lungo.C01.refines_updateMany
 #print axioms Lungo.C01.refines_findOneAndUpdate
+#print axioms Lungo.C01.refines_replaceOne
+#print axioms Lungo.C01.refines_findOneAndReplace
